@@ -20,6 +20,7 @@ import (
 	"sort"
 	"strconv"
 	"strings"
+	"unsafe"
 
 	"github.com/ecodeclub/ekit/mapx"
 	"github.com/ecodeclub/ekit/slice"
@@ -316,6 +317,38 @@ func (f *fam[T]) modified(s, orig []T, extra int) bool {
 	return false
 }
 
+// were the spare slots beyond len(s) of a fresh(orig, extra) copy written to?
+func (f *fam[T]) tailTouched(s []T, extra int) bool {
+	if s == nil {
+		return false
+	}
+	full := s[:cap(s)]
+	if len(full) != len(s)+extra {
+		return true
+	}
+	for _, x := range full[len(s):] {
+		if x != f.sentinel {
+			return true
+		}
+	}
+	return false
+}
+
+// do the backing arrays (whole capacity windows) of a and b share a slot?
+func overlap[T any](a, b []T) bool {
+	if cap(a) == 0 || cap(b) == 0 {
+		return false
+	}
+	var z T
+	sz := unsafe.Sizeof(z)
+	if sz == 0 {
+		return false
+	}
+	pa := uintptr(unsafe.Pointer(unsafe.SliceData(a)))
+	pb := uintptr(unsafe.Pointer(unsafe.SliceData(b)))
+	return pa < pb+uintptr(cap(b))*sz && pb < pa+uintptr(cap(a))*sz
+}
+
 func nn(isNil bool) string {
 	if isNil {
 		return "nn=0"
@@ -423,8 +456,12 @@ func (f *fam[T]) call(w []string, osrc, odst []T) string {
 		return "mut=" + b01(f.modified(src, osrc, spare) || f.modified(dst, odst, spare))
 	}
 	sub := func(i int) []string { return strings.Split(w[i], ":") }
-	set := func(r []T) string { return "ok:" + f.list(f.sorted(r)) + " " + nn(r == nil) + " " + mut() }
-	seq := func(r []T) string { return "ok:" + f.list(r) + " " + nn(r == nil) + " " + mut() }
+	// does the capacity window of a result overlap the capacity window of an argument?
+	alias := func(r []T) string { return "alias=" + b01(overlap(r, src) || overlap(r, dst)) }
+	set := func(r []T) string {
+		return "ok:" + f.list(f.sorted(r)) + " " + nn(r == nil) + " " + mut() + " " + alias(r)
+	}
+	seq := func(r []T) string { return "ok:" + f.list(r) + " " + nn(r == nil) + " " + mut() + " " + alias(r) }
 	boolean := func(b bool) string { return fmt.Sprintf("ok:%v %s", b, mut()) }
 	integer := func(n int) string { return fmt.Sprintf("ok:%d %s", n, mut()) }
 	switch w[0] {
@@ -488,26 +525,27 @@ func (f *fam[T]) call(w []string, osrc, odst []T) string {
 		return seq(slice.Reverse(src))
 	case "reverseself":
 		slice.ReverseSelf(src)
-		return "ok arg=" + f.list(src) + " mutdst=" + b01(f.modified(dst, odst, spare))
+		return "ok arg=" + f.list(src) + " mutdst=" + b01(f.modified(dst, odst, spare)) + " tail=" + b01(f.tailTouched(src, spare))
 	case "filterdelete":
 		r := slice.FilterDelete(src, f.ipred(sub(1)))
-		return "ok:" + f.list(r) + " arg=" + f.list(src)
+		return "ok:" + f.list(r) + " arg=" + f.list(src) + " tail=" + b01(f.tailTouched(src, spare))
 	case "add":
 		extra := atoi(w[3])
 		s := f.fresh(osrc, extra)
 		r, err := slice.Add(s, f.parse(w[1]), atoi(w[2]))
 		if err != nil {
-			return canonErr(err) + " " + nn(r == nil) + " arg=" + f.list(s)
+			// a failing call must leave the whole capacity window (incl. the spare slots beyond len) alone
+			return canonErr(err) + " " + nn(r == nil) + " arg=" + f.list(s) + " mut=" + b01(f.modified(s, osrc, extra))
 		}
 		alias := cap(s) > 0 && cap(r) > 0 && &s[:1][0] == &r[:1][0]
 		return "ok:" + f.list(r) + fmt.Sprintf(" cap=%d", cap(r)) + " arg=" + f.list(s) + " alias=" + b01(alias)
 	case "delete":
-		s := f.fresh(osrc, 0)
+		s := f.fresh(osrc, spare)
 		r, err := slice.Delete(s, atoi(w[1]))
 		if err != nil {
-			return canonErr(err) + " " + nn(r == nil) + " arg=" + f.list(s)
+			return canonErr(err) + " " + nn(r == nil) + " arg=" + f.list(s) + " mut=" + b01(f.modified(s, osrc, spare))
 		}
-		return "ok:" + f.list(r) + " arg=" + f.list(s)
+		return "ok:" + f.list(r) + " arg=" + f.list(s) + " tail=" + b01(f.tailTouched(s, spare))
 	case "tomap":
 		m := slice.ToMap(src, f.kf(sub(1)))
 		return "ok:" + f.mapStr(m) + " " + nn(m == nil) + " " + mut()
@@ -647,22 +685,34 @@ func parseDyn(s string) []any {
 			out[i] = nil
 		}
 	}
+	full := out[:cap(out)]
+	for i := len(out); i < len(full); i++ {
+		full[i] = "~spare"
+	}
 	return out
 }
 
 func packStr[K any, V any](flat []any, rk func(K) string, rv func(V) string) string {
+	before := append([]any{}, flat[:cap(flat)]...)
 	ps := pair.PackPairs[K, V](flat)
+	mut := "mut=0"
+	after := flat[:cap(flat)]
+	for i := range before {
+		if before[i] != after[i] {
+			mut = "mut=1"
+		}
+	}
 	if ps == nil {
-		return "ok:nil"
+		return "ok:nil " + mut
 	}
 	if len(ps) == 0 {
-		return "ok:-"
+		return "ok:- " + mut
 	}
 	toks := make([]string, len(ps))
 	for i, p := range ps {
 		toks[i] = rk(p.Key) + ":" + rv(p.Value)
 	}
-	return "ok:" + strings.Join(toks, ",")
+	return "ok:" + strings.Join(toks, ",") + " " + mut
 }
 
 func callPack(kt, vt, flatS string) string {
